@@ -293,10 +293,10 @@ fn slash_case(ctx: &mut Ctx, rng: &mut Rng, _i: u64) {
 }
 
 pub fn run(ctx: &mut Ctx) {
-    let n = ctx.n(2000, 10_000);
+    let n = ctx.n(2000, 50_000);
     ctx.family("path", n, |ctx, rng, i| path_case(ctx, rng, i, false));
-    let ne = ctx.n(100, 300);
+    let ne = ctx.n(100, 2000);
     ctx.family("only-empty", ne, |ctx, rng, i| path_case(ctx, rng, i, true));
-    let ns = ctx.n(300, 1000);
+    let ns = ctx.n(300, 5000);
     ctx.family("slash", ns, slash_case);
 }
